@@ -273,22 +273,16 @@ theorem radd_eq_apply (add : β → α → Res γ) (xs : Col α) (o : Operand β
   | seq ys => simp only [radd, apply, seqOp, zipCells_flip (cell add) ys xs]
   | scalar s => rfl
 
-theorem rmul_eq_apply {mul : α → α → Res α} (hc : ∀ a b, mul a b = mul b a) (xs : Col α)
-    (o : Operand α) : rmul mul xs o = apply (fun x y => cell mul y x) xs o := by
-  have : cell mul = fun x y => cell mul y x := by
-    funext x y
-    cases x <;> cases y <;> simp [cell, hc]
-  unfold rmul elementwise
-  exact congrFun (congrFun (congrArg apply this) xs) o
+theorem rmul_eq_apply (mul : β → α → Res γ) (xs : Col α) (o : Operand β) :
+    rmul mul xs o = apply (fun x y => cell mul y x) xs o :=
+  relementwise_eq_apply mul xs o
 
-/-- every reflected operator computes `other[i] <o> self[i]` (for `*` because Python's scalar `*`
-    commutes on the operands involved - hypothesis `hmul`) -/
-theorem binary_refl_eq_apply (py : BinOp → α → α → Res α) (o : BinOp)
-    (hmul : o = .mul → ∀ a b, py .mul a b = py .mul b a) (xs : Col α) (other : Operand α) :
+/-- every reflected operator computes `other[i] <o> self[i]` -/
+theorem binary_refl_eq_apply (py : BinOp → α → α → Res α) (o : BinOp) (xs : Col α) (other : Operand α) :
     binary py o true xs other = apply (fun x y => cell (py o) y x) xs other := by
   cases o with
   | add => exact radd_eq_apply _ _ _
-  | mul => exact rmul_eq_apply (hmul rfl) _ _
+  | mul => exact rmul_eq_apply _ _ _
   | sub => exact relementwise_eq_apply _ _ _
   | truediv => exact relementwise_eq_apply _ _ _
   | floordiv => exact relementwise_eq_apply _ _ _
@@ -300,12 +294,12 @@ theorem binary_direct_eq_apply (py : BinOp → α → α → Res α) (o : BinOp)
 
 /-- both directions at once: the per-pair function in the written operand order -/
 theorem binary_eq_apply (py : BinOp → α → α → Res α) (o : BinOp) (refl : Bool)
-    (hmul : refl = true → o = .mul → ∀ a b, py .mul a b = py .mul b a) (xs : Col α)
+    (xs : Col α)
     (other : Operand α) :
     binary py o refl xs other =
       apply (fun x y => if refl then cell (py o) y x else cell (py o) x y) xs other := by
   cases refl with
-  | true => simpa using binary_refl_eq_apply py o (hmul rfl) xs other
+  | true => simpa using binary_refl_eq_apply py o xs other
   | false => rfl
 
 /-- `_Date.__add__` is the ordinary elementwise loop with "add days" or Python's `+` as scalar
@@ -324,7 +318,7 @@ theorem dateAdd_eq_elementwise (S : Sem α) (xs : Col α) (o : Operand α) :
     · simp [dateAdd, usesDays, hs]
 
 theorem vectorBinary_eq_apply (S : Sem α) (o : BinOp) (refl : Bool) (v : Vec α) (other : Operand α)
-    (hmul : refl = true → o = .mul → ∀ a b, S.py .mul a b = S.py .mul b a) :
+ :
     vectorBinary S o refl v other =
       apply (fun x y => if refl then cell (scalarOpOf S o refl v other) y x
                         else cell (scalarOpOf S o refl v other) x y) v.data other := by
@@ -339,7 +333,7 @@ theorem vectorBinary_eq_apply (S : Sem α) (o : BinOp) (refl : Bool) (v : Vec α
     · simp [hu, elementwise]
     · simp [hu, elementwise]
   · simp only [hd, Bool.false_and]
-    rw [binary_eq_apply S.py o refl hmul]
+    rw [binary_eq_apply S.py o refl]
     simp
 
 theorem binary_ok_length {py : BinOp → α → α → Res α} {o : BinOp} {refl : Bool} {xs : Col α}
